@@ -955,6 +955,10 @@ type c18Op struct {
 	// ConsPrune only: Crash counts from the first write to the STATE store ("s") instead of
 	// from the first write of the operation
 	CrashPart string `json:"crash_part"`
+	// audit only the prefixes AuditFrom..AuditTo (0 = no bound): long journals are audited by
+	// several runs so that the trace validation can proceed in parallel
+	AuditFrom int `json:"audit_from"`
+	AuditTo   int `json:"audit_to"`
 }
 
 // a tree of histories: the operation, then every continuation (branches share the prefix)
@@ -1290,6 +1294,9 @@ func (rr *c18Runner) step(n *c18Node, aud *c18Auditor, r c18Run, op c18Op) {
 						}
 					}
 					logIt = near || k%r.SampleEvery == 0 || k == len(entries) || k == crashAt || k <= 3
+				}
+				if (op.AuditFrom > 0 && k < op.AuditFrom) || (op.AuditTo > 0 && k > op.AuditTo) {
+					logIt = false
 				}
 				if !logIt {
 					continue
